@@ -24,6 +24,13 @@ package main
 // ignore lists, redirect statuses 301/302/303/308, header separators and scheme spellings, duplicated
 // and early existing discharges, degenerate headers, what the third party puts into "discharge"
 // (scheme prefix, blanks, two tokens, a foreign discharge, a non-macaroon, a malformed macaroon).
+// Option construction variants (the op line always describes the LOGICAL configuration of the client under
+// test at construction time): ignore lists handed over as `xs...` from a slice with spare capacity; option
+// VALUES (ignore / authentication / http) built once and handed to one more client before and up to two more
+// clients after the client under test, each with further options of its own kinds (an ignore entry, credentials
+// for every pool host, an http client of its own); the caller overwriting and appending to its own ignore
+// slices after NewClient and before FetchDischargeTokens.  None of this may change what the client does.
+//
 // Model-independent oracles inside the observable (never produced by the model, hence a P-difference
 // when they appear): REUSE-DIFF (a second FetchDischargeTokens on the same client answers differently),
 // CALLER-CLIENT-MODIFIED (an option wrote into the caller's *http.Client), CHECKREDIRECT-LOST (redirects followed without the caller's CheckRedirect), CBURL-WRONG (the
@@ -154,6 +161,8 @@ type cliWorld struct {
 	trs      map[int]*cliTransport
 	clients  map[int]*http.Client
 	tidOf    map[int]int // client id → the transport id it was created with
+	spare    bool        // ignore lists are handed over from slices with spare capacity
+	ignLists [][]string  // the caller's own slices behind the ignore options of this run
 }
 
 func cliCanonForms(s string) []string {
@@ -430,7 +439,12 @@ func (o cliOpt) build(w *cliWorld) tp.ClientOption {
 	case "bearer":
 		return tp.WithBearerAuthentication(o.loc, o.cred)
 	case "ign":
-		return tp.WithIgnoredThirdParties(o.locs...)
+		// the caller's own slice (never the scenario's: the caller may scribble on it later), optionally one that
+		// was grown with append and has room left
+		xs := make([]string, len(o.locs), len(o.locs)+map[bool]int{false: 0, true: 4}[w.spare])
+		copy(xs, o.locs)
+		w.ignLists = append(w.ignLists, xs)
+		return tp.WithIgnoredThirdParties(xs...)
 	case "cb":
 		ok := o.ok
 		return tp.WithUserURLCallback(func(ctx context.Context, u string) error {
@@ -586,14 +600,19 @@ type cliScenario struct {
 	scheme   string
 	stripped bool // the header carries a scheme StripAuthorizationScheme removes
 	reuse    bool // call FetchDischargeTokens a second time on the same client
-	thorough bool
-	plain    bool // the fixed "202 then 307 to evil.<host>" scenarios keep their exact historical shape
-	header   string
-	kept     []string // aliases, in order
-	alias    map[string]string
-	flows    []*cliFlow
-	hasCB    bool
-	anyUnmod bool
+	// construction variants (invisible to the model)
+	coBefore    int  // further clients built from the same option values before the client under test (0..1)
+	coAfter     int  // ... and after it, before the fetch (0..2)
+	spareCap    bool // ignore lists come from slices with spare capacity
+	mutateAfter bool // the caller overwrites / appends to its ignore slices after NewClient
+	thorough    bool
+	plain       bool // the fixed "202 then 307 to evil.<host>" scenarios keep their exact historical shape
+	header      string
+	kept        []string // aliases, in order
+	alias       map[string]string
+	flows       []*cliFlow
+	hasCB       bool
+	anyUnmod    bool
 }
 
 func (sc *cliScenario) opLine(perm []int) string {
@@ -626,8 +645,8 @@ func (sc *cliScenario) opLine(perm []int) string {
 	return sb.String()
 }
 
-func (sc *cliScenario) run(perm []int) string {
-	w := &cliWorld{byTicket: map[string]*cliFlow{}, byURL: map[string]*cliFlow{}, orig: map[string]string{}, via: map[int]bool{}, jars: map[int]bool{},
+func (sc *cliScenario) run(o *Out, perm []int) string {
+	w := &cliWorld{spare: sc.spareCap, byTicket: map[string]*cliFlow{}, byURL: map[string]*cliFlow{}, orig: map[string]string{}, via: map[int]bool{}, jars: map[int]bool{},
 		chk: map[int]bool{}, trs: map[int]*cliTransport{}, clients: map[int]*http.Client{}, tidOf: map[int]int{}}
 	flows := make([]*cliFlow, len(sc.flows))
 	userURLs := map[string]bool{}
@@ -678,6 +697,47 @@ func (sc *cliScenario) run(perm []int) string {
 		}
 		sibling = append(sibling, tp.WithAuthentication("", "SIBLING-CLIENT-SECRET"), tp.WithAuthentication("https://", "SIBLING-CLIENT-SECRET"))
 		_ = tp.NewClient(cliFP, sibling...)
+	}
+	// one more client built from option VALUES of the client under test (a shared defaults slice) plus options of
+	// its own: co-client j shares the first ignore option in application order (the "common" list — not the later
+	// ones, which are the other client's own), every authentication value (j = 0) or every second one, the http
+	// value (j = 0) or an http client of its own; then its own ignore entry and its own credentials for every host
+	coClient := func(j int) {
+		var co []tp.ClientOption
+		firstIgn := true
+		for k, i := range perm {
+			switch sc.opts[i].kind {
+			case "ign":
+				if firstIgn {
+					co = append(co, opts[k])
+					o.count("build.shared-value.ign")
+				}
+				firstIgn = false
+			case "auth", "bearer":
+				if j == 0 || (i+j)%2 == 0 {
+					co = append(co, opts[k])
+					o.count("build.shared-value.auth")
+				}
+			case "http":
+				if j == 0 {
+					co = append(co, opts[k])
+					o.count("build.shared-value.http")
+				} else {
+					co = append(co, tp.WithHTTP(&http.Client{Transport: &cliTransport{0, w}}))
+				}
+			}
+		}
+		own := make([]string, 0, 4)
+		own = append(own, fmt.Sprintf("https://co-client-%d-own.example", j))
+		co = append(co, tp.WithIgnoredThirdParties(own...))
+		for _, host := range cliHostPool {
+			co = append(co, tp.WithBearerAuthentication("https://"+host, "CO-CLIENT-SECRET"))
+		}
+		co = append(co, tp.WithAuthentication("", "CO-CLIENT-SECRET"))
+		_ = tp.NewClient(cliFP, co...)
+	}
+	for j := 0; j < sc.coBefore; j++ {
+		coClient(2 + j)
 	}
 	// what one FetchDischargeTokens call shows
 	observe := func(c *tp.Client) string {
@@ -761,8 +821,21 @@ func (sc *cliScenario) run(perm []int) string {
 	}
 	return guard(func() string {
 		c := tp.NewClient(cliFP, opts...)
+		for j := 0; j < sc.coAfter; j++ {
+			coClient(j)
+		}
+		if sc.mutateAfter {
+			// the caller goes on using its own slices: every entry overwritten, one more appended (into the spare room
+			// when there is some)
+			for _, xs := range w.ignLists {
+				for i := range xs {
+					xs[i] = "https://overwritten-by-caller.example"
+				}
+				_ = append(xs, "https://appended-by-caller.example")
+			}
+		}
 		// model-independent: the caller's *http.Client values are the caller's — configuring a discharge client (this
-		// one, the decoys, the sibling) must not have written into them (checked before any request is made)
+		// one, the decoys, the sibling, the co-clients) must not have written into them (checked before any request is made)
 		mod := map[int]bool{}
 		for id, h := range w.clients {
 			if tid := w.tidOf[id]; (tid < 0 && h.Transport != nil) || (tid >= 0 && h.Transport != http.RoundTripper(w.trs[tid])) {
@@ -1451,6 +1524,16 @@ func genCliScenario(r *Rng, o *Out, idx int, thorough bool) *cliScenario {
 		}
 	}
 	sc.reuse = r.Chance(1, 4)
+	if !fixedLeak {
+		if r.Chance(1, 3) {
+			sc.coAfter = 1 + r.Intn(2)
+		}
+		if r.Chance(1, 6) {
+			sc.coBefore = 1
+		}
+		sc.spareCap = r.Bool()
+		sc.mutateAfter = r.Chance(1, 4)
+	}
 	o.count(fmt.Sprintf("tickets.%d", len(sc.flows)))
 	return sc
 }
@@ -1464,6 +1547,9 @@ type cliFixed struct {
 	tickets [][]string // per permission token: the locations of its third-party caveats
 	modes   []string   // per flow
 	reuse   bool
+	coAfter int
+	spare   bool
+	mutate  bool
 }
 
 func cliFixedScenarios(r *Rng, o *Out, thorough bool) []*cliScenario {
@@ -1496,10 +1582,21 @@ func cliFixedScenarios(r *Rng, o *Out, thorough bool) []*cliScenario {
 		{name: "one-value-twice-around-another", hosts: []string{"tp.example"},
 			opts:    []cliOpt{au(T, "Bearer first"), au(T+":8443", "Bearer second"), {kind: "auth", loc: T, cred: "Bearer first", sameAs: 1}, ht(1, 10)},
 			tickets: [][]string{{T}}, modes: []string{"pollredir"}},
+		// a shared defaults list (grown with append) as ONE option value for several clients, each adding an entry of its own
+		{name: "shared-ignore-defaults-several-clients", hosts: []string{"tp.example"}, coAfter: 2, spare: true,
+			opts:    []cliOpt{au(T, "Bearer tok0"), ht(1, 10), {kind: "ign", locs: []string{"https://ignored.example", "https://never-seen.example"}}, {kind: "ign", locs: []string{"https://own-a.example"}}},
+			tickets: [][]string{{T, "https://own-a.example", "https://ignored.example"}}, modes: []string{"immediate", "immediate", "immediate"}},
+		// the caller re-uses its list after NewClient
+		{name: "caller-overwrites-ignore-list", hosts: []string{"tp.example"}, mutate: true, reuse: true,
+			opts:    []cliOpt{au(T, "Bearer tok0"), ht(1, 10), {kind: "ign", locs: []string{"https://never-seen.example", "https://ignored.example"}}},
+			tickets: [][]string{{T, "https://ignored.example"}}, modes: []string{"immediate", "immediate"}},
+		{name: "caller-appends-to-ignore-list", hosts: []string{"tp.example"}, mutate: true, spare: true,
+			opts:    []cliOpt{au(T, "Bearer tok0"), ht(1, 10), {kind: "ign", locs: []string{"https://never-seen.example"}}, {kind: "ign", locs: []string{"https://ignored.example"}}},
+			tickets: [][]string{{T, "https://ignored.example"}}, modes: []string{"immediate", "immediate"}},
 	}
 	var out []*cliScenario
 	for _, fx := range fixed {
-		sc := &cliScenario{thorough: thorough, opts: fx.opts, hosts: fx.hosts, reuse: fx.reuse}
+		sc := &cliScenario{thorough: thorough, opts: fx.opts, hosts: fx.hosts, reuse: fx.reuse, coAfter: fx.coAfter, spareCap: fx.spare, mutateAfter: fx.mutate}
 		kas := map[string]macaroon.EncryptionKey{}
 		var specs [][]cliTicketSpec
 		for _, ls := range fx.tickets {
@@ -1642,7 +1739,23 @@ func famClient(r *Rng, o *Out, tier string) {
 			o.emit(op, "unmodelled")
 			return
 		}
-		res := sc.run(p)
+		res := sc.run(o, p)
+		hasIgn := false
+		for _, op := range sc.opts {
+			hasIgn = hasIgn || op.kind == "ign"
+		}
+		if sc.coBefore > 0 {
+			o.count("build.co-client.before")
+		}
+		if sc.coAfter > 0 {
+			o.count(fmt.Sprintf("build.co-client.after.%d", sc.coAfter))
+		}
+		if hasIgn && sc.spareCap {
+			o.count("build.ign.spare-capacity")
+		}
+		if hasIgn && sc.mutateAfter {
+			o.count("build.ign.caller-overwrites-and-appends-after-NewClient")
+		}
 		o.count("run")
 		switch {
 		case strings.HasPrefix(res, "panic"):
